@@ -724,8 +724,51 @@ class Guards:
         self.block(fn.body, owner, fn, dyn, phase, stack, list(prefix))
         self.local_from = saved
 
+    def module_function(self, name):
+        """the unique module-level function of the package with this name, if its body can raise ValueError (a validation
+        helper that constructors call instead of carrying the test themselves)"""
+        hits = []
+        for rel, tree in self.idx.files.items():
+            for n in tree.body:
+                if isinstance(n, ast.FunctionDef) and n.name == name:
+                    hits.append((Path(rel).stem, n))
+        if len(hits) != 1:
+            return None
+        raises = [r for r in ast.walk(hits[0][1]) if isinstance(r, ast.Raise) and self.is_value_error(r)]
+        return hits[0] if raises else None
+
+    @staticmethod
+    def instantiate(fn, call):
+        """a copy of `fn` in which the parameters are replaced by the argument expressions of `call` (so that the tests read
+        like the tests the caller would have written itself)"""
+        import copy
+        params = [a.arg for a in fn.args.posonlyargs + fn.args.args]
+        m = {}
+        for p_, a in zip(params, call.args):
+            if isinstance(a, ast.Starred):
+                return fn
+            m[p_] = a
+        for kw in call.keywords:
+            if kw.arg is None:
+                return fn
+            m[kw.arg] = kw.value
+        defaults = fn.args.defaults
+        for p_, d in zip(params[len(params) - len(defaults):], defaults):
+            m.setdefault(p_, d)
+        assigned = {t.id for n in ast.walk(fn) for t in ast.walk(n) if isinstance(t, ast.Name) and isinstance(t.ctx, ast.Store)}
+
+        class Sub(ast.NodeTransformer):
+            def visit_Name(self, node):
+                if isinstance(node.ctx, ast.Load) and node.id in m and node.id not in assigned:
+                    return copy.deepcopy(m[node.id])
+                return node
+        fn2 = copy.deepcopy(fn)
+        fn2.body = [Sub().visit(st) for st in fn2.body]
+        ast.fix_missing_locations(fn2)
+        return fn2
+
     def emit(self, owner, fn, conds, phase, lineno):
-        site = (owner, fn.name, lineno)
+        site = (owner, fn.name, lineno, getattr(self, "site_tag", None))
         if site in self.seen_sites:
             return
         self.seen_sites.add(site)
@@ -787,6 +830,16 @@ class Guards:
             if g:
                 o, m = idx.method(g, f.attr)
                 self.walk_fn(o, m, g, phase, stack, conds)
+                return
+        # a module-level validation helper (gu.check_x(...), check_x(...)): its tests count as tests of the caller
+        name = f.id if isinstance(f, ast.Name) else f.attr if isinstance(f, ast.Attribute) else None
+        hit = self.module_function(name) if name else None
+        if hit:
+            mod, fn0 = hit
+            saved = getattr(self, "site_tag", None)
+            self.site_tag = (saved, c.lineno, unparse(c)[:80])
+            self.walk_fn("module:" + mod, self.instantiate(fn0, c), dyn, phase, stack, conds)
+            self.site_tag = saved
 
     def block(self, stmts, owner, fn, dyn, phase, stack, conds):
         for s in stmts:
